@@ -37,7 +37,7 @@ def main():
     build_harness(['owrun'])
     rng = c.rng
     quick = c.tier == 'quick'
-    reps = 6 if quick else 30
+    reps = 16 if quick else 60
     lengths = [1, 2, 7, 40, 120, 400] if quick else [0, 1, 2, 7, 40, 120, 400, 1000]
 
     vecs = []
@@ -77,6 +77,39 @@ def main():
                     st0[k] = rng.choice([0.0, rng.uniform(0, 30.0)])
             cases.append({'ps': ps, 'st0': st0, 'rain': rain, 'pet': pet, 'regime': regime})
 
+    # malformed / boundary stream, compared model-vs-code only: UH lengths in the state vector that do not
+    # match ceil(x4), x4 outside the documented range, short and over-long state vectors, n1 = 0
+    odd = []
+    for _ in range(60 if quick else 600):
+        ps = draw_params(rng, 'GR4J', p_end=0.3)
+        ps[3] = rng.choice([ps[3], rng.uniform(0.2, 6.0), 0.5, 4.0])
+        n1, n2 = rng.randint(0, 5), rng.randint(0, 9)
+        if rng.random() < 0.7:
+            n1, n2 = max(n1, 1), max(n2, 1)
+        st = [rng.uniform(0, ps[0]), rng.uniform(0, ps[2]), float(n1), float(n2)] + [rng.uniform(0, 5) for _ in range(n1 + n2)]
+        r = rng.random()
+        if r < 0.15:
+            st = st[:rng.randint(0, len(st) - 1)]
+        elif r < 0.3:
+            st = st + [rng.uniform(0, 5) for _ in range(rng.randint(1, 3))]
+        rain, pet = forcing(rng, rng.choice(REGIMES), rng.choice([0, 1, 7, 40]))
+        odd.append((ps, st, rain, pet))
+    olines = [kcase('GR4J', ps, st, [rain, pet]) for (ps, st, rain, pet) in odd]
+    oi, om = run_impl(olines), run_model(olines)
+    odd_panics = 0
+    for (ps, st, rain, pet), li, lm, line in zip(odd, oi, om, olines):
+        ri, rm = parse_kresult(li), parse_kresult(lm)
+        c.count(('odd', ps, st, rain, pet), nontrivial=False)
+        if ri[0] != 'OK':
+            odd_panics += 1
+        diff = kresults_agree(ri, rm, rtol=1e-9, atol=1e-12)
+        if diff and ri[0] == 'OK' and rm[0] == 'OK':
+            ps2, rain2, pet2 = perturb_case('GR4J', ps, rain, pet)
+            rp = parse_kresult(run_model([kcase('GR4J', ps2, st, [rain2, pet2])])[0])
+            diff = conditioned_agree(ri, rm, rp, 1e-9, 1e-12)
+        if diff:
+            c.corr_broken.append({'case': ['malformed', ps, st[:4], len(st), len(rain)], 'diff': diff, 'line': line[:4000]})
+
     lines = [kcase('GR4J', cs['ps'], cs['st0'], [cs['rain'], cs['pet']]) for cs in cases]
     impl = run_impl(lines)
     model = run_model(lines)
@@ -87,7 +120,7 @@ def main():
         x1, x2, x3, x4 = cs['ps']
         n1, n2 = int(math.ceil(x4)), int(math.ceil(2 * x4))
         classes[(n1, n2)] = classes.get((n1, n2), 0) + 1
-        c.count((i, n1, n2, cs['regime'], len(cs['rain'])), nontrivial=sum(cs['rain']) > 0 or sum(cs['st0'][4:]) > 0)
+        c.count((cs['ps'], cs['st0'], cs['rain'], cs['pet']), nontrivial=sum(cs['rain']) > 0 or sum(cs['st0'][4:]) > 0)
         diff = kresults_agree(ri, rm, rtol=1e-9, atol=1e-12)
         if diff:
             ps2, rain2, pet2 = perturb_case('GR4J', cs['ps'], cs['rain'], cs['pet'])
@@ -119,6 +152,8 @@ def main():
                 ps2, rain2, pet2 = perturb_case('GR4J', cs['ps'], cs['rain'], cs['pet'])
                 pq, ps_, pr_, pq1, pq9 = published_gr4j(ps2[0], ps2[1], ps2[2], ps2[3], s0, r0, q10, q90, rain2, pet2)
                 sens = [abs(u - v) for u, v in zip(ref_all, pq + [ps_, pr_] + pq1 + pq9)]
+                for j in range(1, len(sens)):     # running maximum: an expanding map keeps the separation it has reached
+                    sens[j] = max(sens[j], sens[j - 1])
             if math.isfinite(a) and abs(a - b) <= ATOL + RTOL * max(abs(a), abs(b)) + KCOND * sens[k]:
                 continue
             bad = '%s: implementation %r, published GR4J %r' % (nm, a, b)
@@ -138,13 +173,13 @@ def main():
                      'forcing from the five regimes, T in {1,2,7,40,120,400}; initial stores either the model\'s own InitialiseStates or arbitrary '
                      'S in [0,x1], R in [0,x3], UH stores in [0,30]; each case run through sim.Catalog, through the extracted Coq kernel (rtol 1e-9) '
                      'and through an independent float64 implementation of the published equations (S-curve functions, convolution routing) '
-                     'compared at rtol 1e-9 / atol 1e-10 mm on every runoff value and every final store; non-trivial = some rain or non-empty UH stores'
+                     'compared at rtol 1e-9 / atol 1e-10 mm on every runoff value and every final store; plus a malformed stream (state-vector lengths not matching ceil(x4), short/over-long vectors, n1=0, x4 outside the range) compared model-vs-code only; non-trivial = some rain or non-empty UH stores; distinct = distinct (parameters, initial states, series)'
                      % ('0.125' if quick else '0.03125'))
-    c.finish(extra_cov={'uh_length_classes': {'%d/%d' % k: v for k, v in sorted(classes.items())}, 'x4_values': len(x4_grid(quick)), 'ill_conditioned_cases_accepted': {'model_vs_code': illcond[0], 'code_vs_published': illcond[1]},
+    c.finish(extra_cov={'uh_length_classes': {'%d/%d' % k: v for k, v in sorted(classes.items())}, 'x4_values': len(x4_grid(quick)), 'malformed_cases': len(odd), 'malformed_panics_impl': odd_panics, 'ill_conditioned_cases_accepted': {'model_vs_code': illcond[0], 'code_vs_published': illcond[1]},
                         'exhaustive': False},
              assumptions=['theorems are over exact reals (RArith); the float comparison against the published equations is testing with tolerance 1e-9',
-                          'the implementation caps the tanh argument at 13 (tanh 13 = 1 - 1.0e-11); the published equations have no cap: '
-                          'the equality theorem is stated for |P-E| <= 13*x1 and the oracle absorbs the cap in its tolerance',
+                          'the implementation caps the tanh argument at 13; the published equations have no cap: the equality theorem is stated for '
+                          '|P-E| <= 13*x1, the cap changes tanh by < 5e-11 (theorem C15_gr4j_cap_immaterial) and the oracle absorbs it in its tolerance',
                           'OCaml libm stands in for Go libm (pow, tanh) in the correspondence run: rtol 1e-9',
                           'sim.Catalog wrapper (generated Run) is exercised, not modelled, in this check (see C04)'])
 
